@@ -44,6 +44,7 @@ pub struct WorkerArgs {
 
 pub fn worker(a: &WorkerArgs) {
     crate::c05::check_tables();
+    crate::world::sandbox_enter();
     let t0 = Instant::now();
     let mut out = WorkerOut::default();
     let mut fps: Vec<u64> = Vec::new();
@@ -92,6 +93,7 @@ pub fn worker(a: &WorkerArgs) {
     }
     std::fs::write(a.out.with_extension("fp"), fb).expect("write fingerprints");
     std::fs::write(&a.out, serde_json::to_vec(&out).unwrap()).expect("write worker output");
+    crate::world::sandbox_leave();
 }
 
 pub struct RunArgs {
@@ -228,6 +230,8 @@ pub fn run_here(scn: &Scenario, transcript: bool) -> (Option<Violation>, RunStat
     // the deterministic random stream starts before anything is forked, so that the reference
     // server and its children are inside it too
     crate::world::random_begin_scenario();
+    crate::world::sandbox_enter();
+    crate::world::sandbox_reset();
     if scn.needs_fresh_reference() {
         crate::iso::start_reference_server();
     }
@@ -458,6 +462,8 @@ pub fn scenario_size(s: &Scenario) -> usize {
 
 pub fn check(a: &RunArgs) -> i32 {
     let t0 = Instant::now();
+    // one scratch directory for this process and the scenario processes it forks (minimisation)
+    crate::world::sandbox_enter();
     println!("check property={} tier={} VERIF_SEED={} scenarios={} workers={}", a.prop, a.tier, a.seed, a.scenarios, a.workers);
     // regression replays: minimised scenarios of defects found (and fixed) earlier must keep passing
     let mut regress_run = 0u64;
